@@ -13,6 +13,11 @@ def gen_scenario(rng, want_index=None, want_verify=None):
     verify = (rng.random() < 0.3) if want_verify is None else want_verify
     src = list(trees) + [f for f in files if rng.random() < 0.9]
     corrupt = [f for f in files if f in src and rng.random() < 0.25] if verify and rng.random() < 0.7 else []
+    src_local = rng.random() < 0.5
+    if verify and not src_local and rng.random() < 0.4:
+        # directory objects damaged in the source too (still parseable); only in a non-local source: a local one drops a
+        # corrupt unprotected object in its own existence query, after the listing has already been read from it
+        corrupt += [t for t in trees if rng.random() < 0.5]
     # destination: closed initial contents
     dest = set()
     for t in trees:
@@ -57,7 +62,7 @@ def gen_scenario(rng, want_index=None, want_verify=None):
         "trees": {d: {"/".join(k): v for k, v in e.items()} for d, e in uni.trees.items()},
         "src": src, "corrupt": corrupt, "dest": sorted(dest), "req": req, "shallow": shallow, "fail": fail,
         "verify": verify, "index": index, "pre": pre, "dest_state": rng.random() < 0.4,
-        "src_local": rng.random() < 0.5, "dest_local": rng.random() < 0.5, "vanish": vanish,
+        "src_local": src_local, "dest_local": rng.random() < 0.5, "vanish": vanish,
         "src_algo": "md5-dos2unix" if rng.random() < 0.2 else "md5",
     }
     return sc, uni
